@@ -172,7 +172,12 @@ def g_oid(r: random.Random) -> str:
     return g_descr(r) if r.random() < 0.6 else g_numericoid(r)
 
 
+WELL_KNOWN_ATTRS = ["objectClass", "objectclass", "OBJECTCLASS", "ObjectClass", "cn", "CN", "Cn", "member", "MEMBER", "userPassword", "userpassword", "1.1", "*", "+"]
+
+
 def g_attrdesc(r: random.Random) -> str:
+    if r.random() < 0.08:
+        return r.choice(WELL_KNOWN_ATTRS[:11])
     s = g_oid(r)
     for _ in range(r.choice([0, 0, 0, 1, 1, 2, 3])):
         s += ";" + "".join(r.choice("abcxyzABC0123456789-") for _ in range(r.choice([1, 2, 4, 8])))
